@@ -173,6 +173,23 @@ class FsSim:
     def img_dirahead(self, at): return Image(self.ns, self.slens(), 'dirahead', at)
     def img_dataahead(self, at): return Image(self.ns_synced, self.wlens(), 'dataahead', at)
 
+    def img_gap(self, at, bump=8):
+        """The maximal image with the newest log renumbered upwards: file numbers handed out to compaction outputs
+        that never reached the MANIFEST leave exactly such a gap between the recorded next-file number and the
+        newest log. Recovery must cope with any gap."""
+        img = self.img_max(at)
+        logs = sorted(n for n in img.ns if re.match(r'^\d+\.log$', n))
+        if not logs:
+            return None
+        newest = logs[-1]
+        num = int(newest.split('.')[0]) + bump
+        tgt = '%06d.log' % num
+        if any(re.match(r'^0*%d\.' % num, n) for n in img.ns):
+            return None
+        img.ns[tgt] = img.ns.pop(newest)
+        img.cls = 'gap'; img.detail = '%s->%s' % (newest, tgt)
+        return img
+
     def img_torn(self, at, o, cut):
         lens = self.wlens()
         lens[o.ino] = o.off + cut
